@@ -4,11 +4,25 @@ from __future__ import annotations
 import ast
 
 from ..cfg import cfg_of
-from ..dataflow import derives, rd_of
+from ..dataflow import derives, rd_of, resolve_local, return_values, expand_locals
 from ..loader import dotted, walk_no_nested
 from . import common_hbar as Hb
 
 ENG = "engine.py"
+
+
+def _sample_dict_var(ctx, g, qn):
+    dv = None
+    for n in walk_no_nested(g.node):
+        if isinstance(n, ast.Call) and isinstance(n.func, ast.Attribute) and n.func.attr == "_combine_and_sort_samples" \
+                and n.args and isinstance(n.args[0], ast.Name):
+            dv = n.args[0].id
+    if dv is None:
+        for _, v in return_values(g.node):
+            if isinstance(v, ast.Tuple) and len(v.elts) == 2 and isinstance(v.elts[1], ast.Name):
+                dv = v.elts[1].id
+    ctx.require(dv, f"{qn}: the sample dictionary handed to _combine_and_sort_samples was not found")
+    return dv
 
 
 def collation(ctx):
@@ -20,7 +34,7 @@ def collation(ctx):
     rets = [n for n in walk_no_nested(f.node) if isinstance(n, ast.Return) and n.value is not None]
     ctx.require(rets, "_combine_and_sort_samples has no return")
     for i, r in enumerate(rets):
-        v = r.value
+        v = resolve_local(f.node, r.value)
         first = v.elts[0] if isinstance(v, ast.Tuple) and v.elts else v
         d = derives(f.node, first)
         if sp not in d.params:
@@ -49,14 +63,17 @@ def collation(ctx):
     for rel, qn in ((ENG, "LocalEngine._run_program"), ("backends/bosonicbackend/backend.py", "BosonicBackend.run_prog")):
         g = ctx.tree.func(rel, qn)
         nkeys = 0
+        # the dictionary is the value handed to _combine_and_sort_samples (directly, or as the second element of
+        # the pair run_prog returns to the bosonic engine) - whatever the local is called
+        dv = _sample_dict_var(ctx, g, qn)
         for n in walk_no_nested(g.node):
             key = None
             if isinstance(n, ast.Assign) and isinstance(n.value, ast.List) and not n.value.elts:
                 for t in n.targets:
-                    if isinstance(t, ast.Subscript) and dotted(t.value) == "samples_dict":
+                    if isinstance(t, ast.Subscript) and dotted(t.value) == dv:
                         key = t.slice
             if isinstance(n, ast.Call) and isinstance(n.func, ast.Attribute) and n.func.attr == "append" and \
-                    isinstance(n.func.value, ast.Subscript) and dotted(n.func.value.value) == "samples_dict":
+                    isinstance(n.func.value, ast.Subscript) and dotted(n.func.value.value) == dv:
                 key = n.func.value.slice
             if key is None:
                 continue
@@ -85,9 +102,10 @@ def columns(ctx):
         g = ctx.tree.func(rel, qn)
         rd = rd_of(g.node)
         n = 0
+        dv = _sample_dict_var(ctx, g, qn)
         for c in walk_no_nested(g.node):
             if isinstance(c, ast.Call) and isinstance(c.func, ast.Attribute) and c.func.attr == "append" and \
-                    isinstance(c.func.value, ast.Subscript) and dotted(c.func.value.value) == "samples_dict" and c.args:
+                    isinstance(c.func.value, ast.Subscript) and dotted(c.func.value.value) == dv and c.args:
                 key = c.func.value.slice
                 val = c.args[0]
                 if not (isinstance(val, ast.Subscript) and isinstance(key, ast.Attribute) and isinstance(key.value, ast.Name)):
@@ -294,13 +312,21 @@ def fock_outcome(ctx, rule="C06.fock-outcome"):
     tgt = body[a].targets[0]
     ctx.require(isinstance(tgt, ast.Name), "sampled outcome is not bound to a name")
     proj = [c for c in ast.walk(body[b]) if isinstance(c, ast.Call) and dotted(c.func) == "ops.project_reset"][0]
+    # the list of measured modes is the one whose length the sampling step decodes the outcome for
+    unidx = [c for c in ast.walk(body[a].value) if isinstance(c, ast.Call) and dotted(c.func) == "ops.unIndex"][0]
+    mvar = None
+    if len(unidx.args) > 1:
+        ln = expand_locals(f.node, unidx.args[1])
+        if isinstance(ln, ast.Call) and dotted(ln.func) == "len" and ln.args and isinstance(ln.args[0], ast.Name):
+            mvar = ln.args[0].id
+    ctx.require(mvar, "measure_fock: ops.unIndex is not called with len(<list of measured modes>)")
     n_cases = 0
     for k in (1, 2, 3):
         for measure in itertools.permutations(range(4), k):
             n_cases += 1
             m = Machine(ctx.tree, [])
             fr = Frame(m, f, None)
-            fr.env = {"measure": list(measure), tgt.id: [("outcome-of-mode", x) for x in sorted(measure)]}
+            fr.env = {mvar: list(measure), tgt.id: [("outcome-of-mode", x) for x in sorted(measure)]}
             label = f"measure={list(measure)}"
             try:
                 for st in body[a + 1:b]:
